@@ -530,17 +530,18 @@ def convex_success_stream(ctx, mods):
         o = run_impl(c, mods)
         ctx.count('evaluations')
         ctx.count('convex_default_cases')
-        bad = [b for _, b in concl(c, o, mods)]
+        bad = list(concl(c, o, mods))      # (tag, text): an increase at the converged exit keeps its tag (finding F1's mechanism, rounding-level here)
         if not o['flag']:
-            bad.append('default settings did not report success on a strictly convex problem (n=%d, condition number %g, %s preconditioner)' % (c['n'], c['kappa'], ['identity', 'diagonal', 'stale diagonal'][c['pk']]))
+            bad.append(('convex-default', 'default settings did not report success on a strictly convex problem (n=%d, condition number %g, %s preconditioner)' % (c['n'], c['kappa'], ['identity', 'diagonal', 'stale diagonal'][c['pk']])))
         else:
             xs = convex_reference(c)
             dist = float(onp.linalg.norm(onp.array(o['x']) - xs))
             if not dist <= 2.0 * dflt.tol / 1.0 + 1e-12 * (1.0 + float(onp.linalg.norm(xs))):      # |x - x*| <= |grad f(x)| / lambda_min, lambda_min(A) = 1
-                bad.append('success reported but the returned point is %.3g away from the unique minimiser (n=%d, condition number %g)' % (dist, c['n'], c['kappa']))
+                bad.append(('convex-default', 'success reported but the returned point is %.3g away from the unique minimiser (n=%d, condition number %g)' % (dist, c['n'], c['kappa'])))
             n_ok += 1
-        for b in bad:
-            ctx.fail('conclusion', 'trust_region_minimize (convex, default settings): ' + b, case=dict({k: v for k, v in c.items()}, tag='convex-default'), concrete=True)
+        for t, b in bad:
+            ctx.fail('conclusion', 'trust_region_minimize (convex, default settings): ' + b,
+                     case=dict({k: v for k, v in c.items()}, tag=t if t == 'uphill-converged-exit' else 'convex-default', stream='convex-default'), concrete=True)
     ctx.cov['convex_default_successes'] = n_ok
 
 
